@@ -43,7 +43,7 @@ func C18(c *Case) *Result {
 	heavy := 0
 	for i := range insts {
 		in := &c18inst{}
-		o := GenOpts{Cheap: true, MaxJobs: 8, MaxBlock: 16384, ExactHint: true, MaxChain: 3, SkipOpt: true}
+		o := GenOpts{Cheap: true, MaxJobs: 8, MaxBlock: 4096, ExactHint: true, MaxChain: 3, SkipOpt: true}
 		if c.Thorough() {
 			o.MaxJobs = 16
 		}
@@ -54,7 +54,7 @@ func C18(c *Case) *Result {
 		if t.Intn(2) == 0 {
 			in.cfg.Entropy = sharedTableEntropy[t.Intn(len(sharedTableEntropy))]
 		}
-		maxBlocks := min(2*in.cfg.Jobs+1, 12)
+		maxBlocks := min(in.cfg.Jobs+1, 6) // race builds are slow: several small pipelines beat a few big ones
 		if expensiveEntropy(in.cfg) {
 			heavy++
 			if heavy > 1 {
